@@ -351,7 +351,7 @@ pub fn generate(seed: u64, property: &str, thorough: bool) -> Trace {
             10 if nrows > 1 && rw.chance(1, 4) => steps.push(Step::RefAddDel { who, row: rw.usize(nrows), target: rw.usize(nrows), dt }),
             10 if nrows > 1 => steps.push(Step::RefAdd { who, row: rw.usize(nrows), target: rw.usize(nrows), dt }),
             11 if nrows > 1 => steps.push(Step::RefDel { who, row: rw.usize(nrows), target: rw.usize(nrows), dt }),
-            12 => steps.push(Step::SysMutate { who, kind: rw.usize(4), dt }),
+            12 => steps.push(Step::SysMutate { who, kind: rw.usize(6), dt }),
             13 => steps.push(Step::Restart { node: rw.usize(nodes) }),
             14 => steps.push(Step::Grid),
             _ => {}
@@ -416,6 +416,20 @@ pub fn directed(property: &str) -> Vec<Trace> {
                     Step::Move { who: 1, row: 0, to: 1, dt: DAY_MS },
                     Step::AddRight { who: 0, room: 0, group: 0, right: RightSpec { ent: 0, own: true, all: false }, dt: 3_600_000, nb: false },
                     Step::Move { who: 1, row: 1, to: 1, dt: DAY_MS },
+                ],
+            ));
+            out.push(mk(
+                "C01 the references of a room definition removed directly (by an admin and by a plain member)",
+                2,
+                vec![
+                    Step::NewRoom { who: 0, room: 0, admins: vec![0], groups: vec![own_only(vec![0, 1])], dt: 20 },
+                    Step::SysMutate { who: 1, kind: 4, dt: 1000 },
+                    Step::SysMutate { who: 1, kind: 5, dt: 1000 },
+                    Step::SysMutate { who: 0, kind: 4, dt: 1000 },
+                    Step::SysMutate { who: 0, kind: 5, dt: 1000 },
+                    Step::Grid,
+                    Step::Restart { node: 0 },
+                    Step::Grid,
                 ],
             ));
             out.push(mk(
@@ -1221,6 +1235,22 @@ fn exec_step(c: &mut Ctx, st: &Step) -> Result<(), String> {
             sync_clocks(c);
             // authorisation rows are never changed outside a room mutation
             let k = key_b64(c, who);
+            if kind % 6 >= 4 {
+                // a reference of the room definition removed directly: the one that makes somebody an admin (4) or a user (5)
+                let Some(rr) = c.rooms.iter().flatten().next().cloned() else { return Ok(()) };
+                let rn = { let conn = c.w.nodes[who].oracle_conn()?; dv::RoomNode::read(&conn, &rr.uid).map_err(|e| e.to_string())? };
+                let Some(rn) = rn else { return Ok(()) };
+                let (q, src, dest) = if kind % 6 == 4 {
+                    let Some(e) = rn.admin_edges.first() else { return Ok(()) };
+                    ("delete { sys.Room{ $id admin[$t] } }", e.src, e.dest)
+                } else {
+                    let Some(e) = rn.auth_nodes.iter().flat_map(|a| a.user_edges.iter()).next() else { return Ok(()) };
+                    ("delete { sys.Authorisation{ $id users[$t] } }", e.src, e.dest)
+                };
+                let p = serde_json::json!({"id": dv::uid_encode(&src), "t": dv::uid_encode(&dest)}).to_string();
+                attempt(c, who, "definition-reference-deleted-directly", Some(false), "outside-room-mutation", true, q, Some(p))?;
+                return Ok(());
+            }
             let (q, del): (String, bool) = match kind % 4 {
                 0 => (format!("mutate {{ sys.UserAuth{{ verif_key:\"{k}\" }} }}"), false),
                 1 => ("mutate { sys.EntityRight{ entity:\"Person\" mutate_self:true mutate_all:true } }".to_string(), false),
